@@ -107,6 +107,10 @@ pub trait Interface: ErrorHandler {
                     header = call_header;
                 }
             }
+            else {
+                // An empty program message unit consumed the message terminator.
+                header = self.root_node();
+            }
 
             input = i;
         }
